@@ -99,7 +99,7 @@ proc_line(const struct mass_add_clo_s *clo, char *line, size_t llen)
 	do {
 		/* check if line matches, */
 		d = dt_io_find_strpdt2(
-			line, llen, clo->gra, &sp, &ep, clo->fromz);
+			line, llen, clo->gra, &sp, &ep, clo->hackz);
 
 		if (!dt_unk_p(d)) {
 			if (UNLIKELY(d.fix) && !clo->quietp) {
@@ -377,7 +377,7 @@ Error: cannot interpret date/time string `%s'", inp);
 					goto empty;
 				}
 				/* try and parse the line */
-				d = dt_io_strpdt_ep(line, fmt, nfmt, &ep, fromz);
+				d = dt_io_strpdt_ep(line, fmt, nfmt, &ep, hackz);
 				if (UNLIKELY(dt_unk_p(d))) {
 					goto empty;
 				} else if (ep && (unsigned)*ep >= ' ') {
